@@ -31,6 +31,13 @@ Theorem C10_inout_buf_trim : forall text, let nt := fst (len_trim text (length t
 Proof. exact str_alloc_len_trim. Qed.
 Print Assumptions C10_inout_buf_trim.
 
+(* in every in-bounds call the block handed to C has room for the whole Fortran variable (nsrc characters) and the NUL:
+   the C function's result for an intent(inout) argument, at most nsrc characters, is written inside it *)
+Theorem C10_buffer_has_room_for_the_variable : forall src nsrc ntrim,
+  snd (str_alloc src nsrc ntrim) = true -> length (fst (str_alloc src nsrc ntrim)) = S nsrc.
+Proof. exact str_alloc_room. Qed.
+Print Assumptions C10_buffer_has_room_for_the_variable.
+
 (* what strlen/C code sees in that buffer is the trimmed text (for text without NUL) *)
 Theorem C10_input_c_string_is_trimmed_text : forall text,
   forallb (fun c => negb (N.eqb c NUL)) text = true ->
